@@ -24,6 +24,7 @@ MC_Fns == {"sin", "sqrt"}
 MC_SOps == {"+", "-", "*", "/", "**"}
 MC_VOps == {"+", "*", "**", "/"}
 MC_Senses == {}
+MC_ObjCands == {}
 MC_Stages == <<>>
 MC_FinalEn == {}
 MC_SingValues == {}
